@@ -47,12 +47,18 @@ CLAIMED = {
  "C12": dict(text="PARTIAL (N-point chain rule not proved in general): the loss recursion (to_derivative observation models, bayes_rule_and_logpdf, evaluate_lml with running mean/sum, terminal loss) is modelled with every density term as the exact pair (quadratic form via the certified inverse, determinant by Laplace expansion); accumulator theorem for all N, one step = predict-then-condition, chain rule for two time points; on every case the implementation's loss is compared with the model on the exact posterior AND with an independent exact evaluation of the joint density assembled from the Markov factorisation plus noise, and model vs joint agree as exact rationals.",
              note=TB + "logarithms are evaluated by the harness from exact rationals; std > 0 only (no certified pseudo-inverse).",
              tech="machine-checked proof in Coq (accumulator invariant, 2-point chain rule) + exact joint-density oracle"),
+ "C13": dict(text="Sampling model (Model/Sample.v: draws are n x c matrices, reverse-order ancestral sampling through the backward conditionals). Proved for every length, shape and factor: zero draws return the posterior means pushed through the conditionals; samples are affine in the base draws with the composed-conditional linear map; unit draws recover the columns of that map, whose Gram matrix is the joint covariance of the Markov sequence; isotropic columns are independent (Gram = Cov (x) I_d, the repaired behaviour); the former shared-draw variant is refuted. Correspondence: zero draws, unit draws column by column, affinity and the Gram matrix of the implementation's sample map against the model for the three factorisations; requested draw shapes; key handling.",
+             note=TB + "The pseudo-random generator is outside the model: base draws are supplied (unit vectors / zeros) through the public `sample` entry point's shape contract; distributional statements are proved as statements about the linear map.",
+             tech="machine-checked proof in Coq (affine-map / Gram-matrix theorems by induction over the sequence) + model-vs-implementation correspondence"),
  "C16": dict(text="PARTIAL: the one hand-written derivative rule (custom JVP of qr_r) is analysed in Coq: it preserves the Gram derivative for all shapes (theorem) and is refuted as derivative of the triangular factor (exact rational witness); the JAX transformation machinery itself cannot be modelled. The check compares jax.jvp, jax.jacrev and 4th-order finite differences of means, stds, scales and losses w.r.t. vector-field, initial-value, base-scale and noise parameters, with discriminator re-runs (exact QR rule, safe norm, triangular solve) that attribute mismatches to the listed known findings.",
              note=TB + "Forward/reverse agreement and finiteness are observed, not proved (JAX runtime).",
              tech="machine-checked proof in Coq (matrix identity + refutation witness) + AD-vs-finite-difference comparison with discriminators"),
  "C17": dict(text="Combinatorial identity over all sign vectors proved for every N; estimators averaged over all probes equal the exact blocks for any Jacobian tensor and any sizes; validator reflection; correspondence with rademacher patched to enumerate all probes.",
              note=TB + "jvp/vjp modelled as the exact linear maps of the Jacobian (JAX AD trusted, checked by correspondence).",
-             tech="machine-checked proof in Coq (induction over sign vectors) + model-vs-implementation correspondence under full probe enumeration"), "C20": dict(text="PARTIAL (exception mechanics are runtime behaviour): every validator (Taylor-coefficient containers, base/output scales, exactness flags, lift_by range, isinstance gates, loss std containers, posterior type, error/reference shapes, ensemble count, suitability warnings) is transcribed as a decision function on an abstract value universe and proved to reflect an independently written declarative well-formedness spec (iff for all inputs where possible, bounded-exhaustive where stated, refuted with witnesses where the code accepts malformed input); the full single-field corruption matrix (4496 cases, exhaustive) is run against the real API and the model verdicts.",
+             tech="machine-checked proof in Coq (induction over sign vectors) + model-vs-implementation correspondence under full probe enumeration"), "C19": dict(text="Gauss-Newton MAP routine (Model/LstSq.v: certified pseudo-inverse checked against the four Penrose equations; body, the three strict exit conditions, fuelled loop with fuel = maxiter). Proved: for affine constraints one iteration reaches the closed form m - C A^T (A C A^T)^-1 (A m + c) with residual exactly 0 and stays there, and this is the Gaussian conditional mean; for any constraint the displacement lies in range(C J^T), each step solves the linearised constraint, a stationary state is feasible; the returned iterate is the first at which a condition fails (iff), statistics are truthful, iters <= maxiter, the loop never runs out of fuel; linearising an affine constraint at any point gives it back, so the bayes_rule update is exact. Correspondence: cond_fun on every recorded state (exact), body_fun transitions, exits and statistics, thresholds probed within 2^-10, singular covariances, rank-deficient Jacobians, the dense constraint_residual(taylor_point=MAP) path.",
+             note=TB + "Order comparisons enter through a boolean oracle (Qc order); the bulk of model evaluations uses a bigQ instance of the same polymorphic model (Bignums; correspondence only), cross-checked against the Qc instance.",
+             tech="machine-checked proof in Coq (closed form, loop invariant and exit characterisation) + model-vs-implementation correspondence"),
+ "C20": dict(text="PARTIAL (exception mechanics are runtime behaviour): every validator (Taylor-coefficient containers, base/output scales, exactness flags, lift_by range, isinstance gates, loss std containers, posterior type, error/reference shapes, ensemble count, suitability warnings) is transcribed as a decision function on an abstract value universe and proved to reflect an independently written declarative well-formedness spec (iff for all inputs where possible, bounded-exhaustive where stated, refuted with witnesses where the code accepts malformed input); the full single-field corruption matrix (4496 cases, exhaustive) is run against the real API and the model verdicts.",
              note=TB + "Which exception class/message and 'never produces numbers' are observed by the harness; Coq decides the accept/reject logic only. Three accepted-malformed-input defects are known findings F15-F17.",
              tech="machine-checked proof in Coq (boolean reflection of validators against a declarative spec) + exhaustive corruption matrix against the real API"),
 }
